@@ -583,7 +583,9 @@ class Protocol:
             flush-pkt.
         """
         pkt = self.read_pkt_line()
-        while pkt:
+        # Compare with None rather than testing truthiness: an empty pkt-line
+        # ("0004") is a valid packet, not the end of the sequence.
+        while pkt is not None:
             yield pkt
             pkt = self.read_pkt_line()
 
